@@ -32,17 +32,32 @@ Definition init_state (l : list iacct) : state := mkState (init_data l) [] [] 0 
 
 Definition b2n (b : bool) : N := if b then 1 else 0.
 
+(* AccountDB.Empty. The real answer also depends on the storage caches of the object (C04 findings); it is
+   compared for the accounts where that cannot matter: accounts that do not exist, accounts with a nonce or
+   code, and nonce-0 code-less accounts that never had a storage slot (every such account of the universe:
+   value-transfer targets, precompiles, the zero address). The storage-only system accounts 900/901 are excluded. *)
+Definition empty_of (d : data) (a : addr) : bool :=
+  match objs d a with
+  | None => true
+  | Some o => (a_nonce o =? 0) && (a_code o =? 0)
+  end.
+
+Definition slot_view (d : data) (p : N * N) : N :=
+  let v := state_of d (fst p) (snd p) in if fst p =? ESC then v / unit18 else v.
+
 (* every query of the property over the finite universe, flattened *)
-Definition obs (addrs keys hashes : list N) (d : data) : list N :=
+Definition obs (addrs keys hashes : list N) (slots : list (N * N)) (d : data) : list N :=
   flat_map (fun a =>
-      [b2n (exists_of d a); nonce_of d a; code_of d a; b2n (suicided_of d a); bal d a; b2n (acl d a)]
+      [b2n (exists_of d a); nonce_of d a; code_of d a; b2n (suicided_of d a); bal d a; b2n (acl d a);
+       if a <? 900 then b2n (empty_of d a) else 0]
       ++ map (fun k => state_of d a k) keys ++ map (fun k => tstor d a k) keys) addrs
+  ++ map (slot_view d) slots
   ++ [refund d]
   ++ flat_map (fun h => N.of_nat (length (logs d h))
                         :: flat_map (fun l => [l_addr l; l_topic l; l_tx l; l_txindex l; l_index l]) (logs d h)) hashes.
 
 Definition outcome_code (o : outcome) : N :=
-  match o with OOk => 0 | ORevert => 1 | OErr c => 10 + c | OFuel => 98 | OPanic => 99 end.
+  match o with OOk => 0 | ORevert => 1 | OErr c => 10 + c | OCodeStore => 30 | OFuel => 98 | OPanic => 99 end.
 
 (* observed by the harness on the real code: (obs right after Prepare, outcome, returned logs, obs after the call) *)
 Definition tobs : Type := list N * N * list (N * N) * list N.
@@ -53,6 +68,7 @@ Record tcase := Case {
   c_addrs : list N;
   c_keys : list N;
   c_hashes : list N;
+  c_slots : list (N * N);
   c_txs : list (tx * tobs) }.
 
 Fixpoint list_eqb (l1 l2 : list N) : bool :=
@@ -62,7 +78,7 @@ Fixpoint list_eqb (l1 l2 : list N) : bool :=
   | _, _ => false
   end.
 
-Definition fuel0 : nat := 40.
+Definition fuel0 : nat := 1100.
 
 Definition flat_logs (l : list log) : list N := flat_map (fun x => [l_addr x; l_topic x]) l.
 Definition flat_pairs (l : list (N * N)) : list N := flat_map (fun x => [fst x; snd x]) l.
@@ -73,10 +89,10 @@ Fixpoint run_txs (c : tcase) (l : list (tx * tobs)) (s : state) : bool :=
   | (t, (o_prep, o_out, o_logs, o_post)) :: r =>
       let s1 := with_oracle (prepare (t_hash t) (t_index t) s) (t_oracle t) in
       let '(o, lg, s2) := exec_top (c_progs c) fuel0 t s1 in
-      list_eqb (obs (c_addrs c) (c_keys c) (c_hashes c) (dat s1)) o_prep
+      list_eqb (obs (c_addrs c) (c_keys c) (c_hashes c) (c_slots c) (dat s1)) o_prep
       && (outcome_code o =? o_out)
       && list_eqb (flat_logs lg) (flat_pairs o_logs)
-      && list_eqb (obs (c_addrs c) (c_keys c) (c_hashes c) (dat s2)) o_post
+      && list_eqb (obs (c_addrs c) (c_keys c) (c_hashes c) (c_slots c) (dat s2)) o_post
       && run_txs c r s2
   end.
 
@@ -89,8 +105,8 @@ Fixpoint show_txs (c : tcase) (l : list (tx * tobs)) (s : state) : list (list N 
   | (t, _) :: r =>
       let s1 := with_oracle (prepare (t_hash t) (t_index t) s) (t_oracle t) in
       let '(o, lg, s2) := exec_top (c_progs c) fuel0 t s1 in
-      (obs (c_addrs c) (c_keys c) (c_hashes c) (dat s1), outcome_code o, flat_logs lg,
-       obs (c_addrs c) (c_keys c) (c_hashes c) (dat s2)) :: show_txs c r s2
+      (obs (c_addrs c) (c_keys c) (c_hashes c) (c_slots c) (dat s1), outcome_code o, flat_logs lg,
+       obs (c_addrs c) (c_keys c) (c_hashes c) (c_slots c) (dat s2)) :: show_txs c r s2
   end.
 Definition show (c : tcase) := show_txs c (c_txs c) (init_state (c_init c)).
 
@@ -137,8 +153,8 @@ Fixpoint diag_txs (c : tcase) (l : list (tx * tobs)) (s : state) : list (option 
   | (t, (o_prep, o_out, o_logs, o_post)) :: r =>
       let s1 := with_oracle (prepare (t_hash t) (t_index t) s) (t_oracle t) in
       let '(o, lg, s2) := exec_top (c_progs c) fuel0 t s1 in
-      (first_diff 0 (obs (c_addrs c) (c_keys c) (c_hashes c) (dat s1)) o_prep, (outcome_code o, o_out),
+      (first_diff 0 (obs (c_addrs c) (c_keys c) (c_hashes c) (c_slots c) (dat s1)) o_prep, (outcome_code o, o_out),
        first_diff 0 (flat_logs lg) (flat_pairs o_logs),
-       first_diff 0 (obs (c_addrs c) (c_keys c) (c_hashes c) (dat s2)) o_post) :: diag_txs c r s2
+       first_diff 0 (obs (c_addrs c) (c_keys c) (c_hashes c) (c_slots c) (dat s2)) o_post) :: diag_txs c r s2
   end.
 Definition diag (c : tcase) := diag_txs c (c_txs c) (init_state (c_init c)).
